@@ -141,6 +141,14 @@ def jobs(tier: str, seed: int) -> list[dict]:
                     params=dict(code='FT', n=4, depth=6, script='mmmmm', fixed={'0': 1000, '1': 1000, '2': 1000},
                                 maxstack=12),
                     budget_s=B, must_cover=['done', 'raise-refused'], prio=9))
+    for code in ('F7S', 'F7S8', 'FR'):
+        out.append(dict(name=f'{code}/opening/door-cards', module='harness.c13', fn='h_door', traced=False,
+                        params=dict(code=code, n=2), budget_s=B, must_cover=['door']))
+    # split games award two halves (and only over hand types a contender holds): C02 oracle on hi+lo
+    out.append(dict(name='split/hilo/n3/allin', module='harness.c02', fn='h_showdown',
+                    params=dict(n=3, depth=0, shape='allin', hilo=True, levels=2, lo_levels=1,
+                                part=['s0<s1', 's1==s2']),
+                    budget_s=B, must_cover=['showdown'], prio=9))
     out.append(dict(name='F7S/n8/streets-played', module='harness.c06', fn='h_deal', traced=False,
                     params=dict(code='F7S', n=8, sym_decisions=2, manual='auto', draw_masks=False, which='deal'),
                     budget_s=B, must_cover=['done', 'fallback']))
